@@ -12,6 +12,8 @@ import IweModel.Props.C09
 import IweModel.Props.C10
 import IweModel.Props.C11
 import IweModel.Props.C12
+import IweModel.Props.C13
+import IweModel.Props.C14
 import IweModel.Props.C15
 import IweModel.Props.C16
 import IweModel.Props.C17
